@@ -7,6 +7,7 @@ package prometheus
 import (
 	"errors"
 	"net"
+	"net/netip"
 	"time"
 
 	"github.com/Jigsaw-Code/outline-ss-server/ipinfo"
@@ -131,7 +132,6 @@ func VH_C16_prom() {
 	verifReach("C16.prom.done", true)
 }
 
-
 // non-interference (2-safety): two clients that differ only in address and receive the same
 // location info produce exactly the same exported label values
 func verifC20Scenario(db *verifInfoDB, caddr *net.TCPAddr, authenticated bool) []string {
@@ -169,4 +169,41 @@ func VH_C20_noninterference() {
 		verifAssert("C20.noninterference.same-labels", la[i] == lb[i])
 	}
 	verifReach("C20.noninterference.done", true)
+}
+
+type verifHookDB struct {
+	info ipinfo.IPInfo
+	hook func()
+}
+
+func (d *verifHookDB) GetIPInfo(ip net.IP) (ipinfo.IPInfo, error) {
+	if d.hook != nil {
+		d.hook()
+	}
+	return d.info, nil
+}
+
+// a scrape that runs while a client's location is being looked up never exports that client
+// under the label reserved for "lookup disabled"
+func VH_C20_scrape_during_lookup() {
+	verifInstallClock(1 << 41)
+	db := &verifHookDB{info: ipinfo.IPInfo{CountryCode: "AA", ASN: ipinfo.ASN{Number: 64500, Organization: "Org"}}}
+	c := newTunnelTimeMetrics(db)
+	scrapes := 0
+	db.hook = func() {
+		// another goroutine (the scraper) can only run here if the collector's lock is free
+		if c.mu.TryLock() {
+			c.mu.Unlock()
+			verifClockNs += 5000
+			c.Collect(make(chan prometheus_Metric, 16))
+			scrapes++
+		}
+	}
+	k := IPKey{netip.AddrFrom4([4]byte{203, 0, 113, 5}), "k1"}
+	c.startConnection(k)
+	db.hook = nil
+	verifClockNs += 7000
+	c.stopConnection(k)
+	verifAssert("C20.lookup.no-time-under-disabled-label", verifCounterValue(c.tunnelTimePerLocation, "ns", "", "", "") == 0)
+	verifReach("C20.lookup.done", true)
 }
